@@ -2075,6 +2075,15 @@ class Interp:
     lazy_request = None   # the generator function whose next call should give a generator object (set by the domain around a call it resolved)
     lazy_made = False
 
+    def _constant_tuple(self, node):
+        """The value of a tuple display made of constants and such tuples only, else None."""
+        if isinstance(node, ast.Constant):
+            return self.domain.constant(node)
+        if isinstance(node, ast.Tuple):
+            parts = [self._constant_tuple(x) for x in node.elts]
+            return None if any(p is None for p in parts) else ("tuple",) + tuple(parts)
+        return None
+
     def inline(self, func, argvals, st, caller, receiver=None, name=None, is_method=True, closure_env=(), self_value=None, export_locals=None):
         """Execute ``func`` with params bound to abstract values; -> list of Result.
 
@@ -2182,8 +2191,8 @@ class Interp:
                     v = argvals[p.arg]
                 elif p.arg in defaults and isinstance(defaults[p.arg], ast.Constant):
                     v = self.domain.constant(defaults[p.arg])
-                elif p.arg in defaults and isinstance(defaults[p.arg], ast.Tuple) and all(isinstance(x, ast.Constant) for x in defaults[p.arg].elts) and getattr(self.domain, "exact_lists", False):
-                    v = ("tuple",) + tuple(self.domain.constant(x) for x in defaults[p.arg].elts)   # an immutable default
+                elif p.arg in defaults and isinstance(defaults[p.arg], ast.Tuple) and getattr(self.domain, "exact_lists", False) and self._constant_tuple(defaults[p.arg]) is not None:
+                    v = self._constant_tuple(defaults[p.arg])   # an immutable default (tuples of constants, nested)
                 elif p.arg in defaults and getattr(self.domain, "heap", False) and _empty_container(defaults[p.arg]) is not None:
                     # a mutable default is one object, made when the function is defined and shared by all its calls
                     v = ("h", f"default:{getattr(func, 'name', '')}:{p.arg}:{defaults[p.arg].lineno}")
